@@ -22,7 +22,11 @@ func genC16(seed uint64, tier string, idx int) *Plan {
 	if g.r.chance(2) {
 		holes = g.r.pick(60, 100, 121, 122, 126, 130, 200, 255) // many gaps: every second byte of a file missing
 	}
-	g.genUpload(ci, attOpts{maxFiles: 3, maxChunks: mc, chunkMax: cm, withhold: true, grouped: g.r.chance(40), holes: holes})
+	sparse := 0
+	if holes == 0 && g.r.chance(1) {
+		sparse = g.r.pick(65537, 70000, 131080, 200000, 300000) // missing stretches longer than 64 KiB
+	}
+	g.genUpload(ci, attOpts{maxFiles: 3, maxChunks: mc, chunkMax: cm, withhold: sparse == 0, grouped: g.r.chance(40), holes: holes, sparse: sparse})
 	p.Sched = g.sched()
 	p.MaxStep = 300000
 	return p
